@@ -59,7 +59,23 @@ func (core *JApiCore) buildUserTypes() *jerr.JApiError {
 		}
 	})
 
-	err := core.userTypes.Each(func(n string, _ jschemaLib.Schema) error {
+	// Rules have to be added to all user types before any of them is compiled:
+	// a type is compiled as soon as another type which uses it is processed, and
+	// a rule cannot be added to the compiled type.
+	dd := core.catalog.GetRawUserTypes()
+	err := core.userTypes.Each(func(n string, ut jschemaLib.Schema) error {
+		for rn, r := range core.rules {
+			if err := ut.AddRule(rn, r); err != nil {
+				return jschemaToJAPIError(err, dd.GetValue(n))
+			}
+		}
+		return nil
+	})
+	if err != nil {
+		return adoptError(err)
+	}
+
+	err = core.userTypes.Each(func(n string, _ jschemaLib.Schema) error {
 		return core.compileUserTypeWithAllDependencies(n)
 	})
 	return adoptError(err)
@@ -90,13 +106,6 @@ func (core *JApiCore) compileUserTypeWithAllDependencies(name string) error {
 	}
 
 	dd := core.catalog.GetRawUserTypes()
-
-	// Add rules before we try to do something with the type.
-	for n, r := range core.rules {
-		if err := currUT.AddRule(n, r); err != nil {
-			return jschemaToJAPIError(err, dd.GetValue(n))
-		}
-	}
 
 	tt, err := fetchUsedUserTypes(currUT, core.userTypes)
 	if err != nil {
